@@ -201,15 +201,18 @@ def apply_op(csrf, ref, op, cfg, env):
     elif k == "mean":
         ref["mean"] = op["v"]
         csrf.mean = mean_val(op["v"])
-        kr.set_condition()
+        if op.get("refresh", True):  # (mean, trend and normalizer act on the conditions when kriging is evaluated: no refresh needed)
+            kr.set_condition()
     elif k == "trend":
         ref["trend"] = op["v"]
         csrf.trend = trend_fn(op["v"])
-        kr.set_condition()
+        if op.get("refresh", True):  # (mean, trend and normalizer act on the conditions when kriging is evaluated: no refresh needed)
+            kr.set_condition()
     elif k == "norm":
         ref["norm"] = op["v"]
         csrf.normalizer = norm_obj(op["v"])
-        kr.set_condition()
+        if op.get("refresh", True):  # (mean, trend and normalizer act on the conditions when kriging is evaluated: no refresh needed)
+            kr.set_condition()
     elif k == "krige_direct":
         kr(target(cfg, op["pos"]))
         ref["tpos"] = (op["pos"], "unstructured")
@@ -332,6 +335,10 @@ def ops_for(cfg, tier="quick"):
     v = cfg["variant"]
     if v == "Simple":
         A({"k": "mean", "v": "c2"})
+        A({"k": "mean", "v": "c2", "refresh": False})
+    if v in ("Simple", "Ordinary", "Universal"):
+        A({"k": "trend", "v": "lin2", "refresh": False})
+        A({"k": "norm", "v": "yj", "refresh": False})
     if v in ("Simple", "Ordinary", "Universal"):
         A({"k": "trend", "v": "lin2"})
         A({"k": "norm", "v": "yj"})
